@@ -47,6 +47,40 @@ fn cond_json(e: &Expr) -> Value {
 			json!({"and": [cond_json(&b.left), cond_json(&b.right)]})
 		},
 		Expr::Let(l) => json!({"let": {"pat": txt(&l.pat), "expr": txt(&l.expr)}}),
+		Expr::Match(m) => {
+			let arms: Vec<Value> = m
+				.arms
+				.iter()
+				.map(|a| json!({"pat": txt(&a.pat), "guard": a.guard.as_ref().map(|(_, g)| txt(g)), "cfg": cfg_of(&a.attrs), "value": cond_json(&a.body)}))
+				.collect();
+			json!({"match": {"on": txt(&m.expr), "arms": arms}, "text": txt(e)})
+		},
+		Expr::If(i) => {
+			let single = |b: &Block| -> Option<Value> {
+				if b.stmts.len() == 1 {
+					if let Stmt::Expr(x, None) = &b.stmts[0] {
+						return Some(cond_json(x));
+					}
+				}
+				None
+			};
+			let t = single(&i.then_branch);
+			let f = match &i.else_branch {
+				Some((_, eb)) => match &**eb {
+					Expr::Block(b) => single(&b.block),
+					other => Some(cond_json(other)),
+				},
+				None => None,
+			};
+			match (t, f) {
+				(Some(t), Some(f)) => json!({"ite": {"c": cond_json(&i.cond), "t": t, "e": f}, "text": txt(e)}),
+				_ => json!({"atom": txt(e)}),
+			}
+		},
+		Expr::Block(b) if b.block.stmts.len() == 1 => match &b.block.stmts[0] {
+			Stmt::Expr(x, None) => cond_json(x),
+			_ => json!({"atom": txt(e)}),
+		},
 		_ => json!({"atom": txt(e)}),
 	}
 }
@@ -95,6 +129,13 @@ impl<'a> Cx<'a> {
 				Stmt::Local(l) => {
 					let cfg = cfg_of(&l.attrs);
 					if let Some(init) = &l.init {
+						// `let w = writer.next();` — an alias of a writer slot
+						if self.is_slot(&init.expr) {
+							if let Pat::Ident(pi) = &l.pat {
+								self.writers.insert(pi.ident.to_string());
+								continue;
+							}
+						}
 						let sk = self.expr(&init.expr);
 						let mut n = json!({"k": "let", "pat": txt(&l.pat), "expr": txt(&init.expr), "cond": cond_json(&init.expr),
 							"line": self.src.line_of(l.span())});
